@@ -14,11 +14,11 @@ import (
 // many points per case.
 func init() {
 	Props["C12"] = &Prop{
-		Imports:    "From Verif Require Import Model.Access Corr.C12.",
+		Imports:    "From Coq Require Import Uint63.\nFrom Verif Require Import Model.Access Corr.C12.",
 		Gen:        genC12,
 		Corpus:     corpusC12,
 		NonTrivial: func(c *Case) bool { return c.Tags["granted_partial"] > 0 && c.Tags["granted_all"] > 0 },
-		ShardSize:  8,
+		ShardSize:  20,
 	}
 }
 
@@ -113,9 +113,9 @@ func runC12(points []c12Point, kind string, idx int) Case {
 		}
 		aux := "None"
 		if !p.authNone {
-			aux = "(Some " + CNs(u32s(p.aux)) + ")"
+			aux = "(Some " + CIs(u32s(p.aux)) + ")"
 		}
-		coq = append(coq, fmt.Sprintf("{| p_mode := %d; p_fuid := %d; p_fgid := %d; p_euid := %d; p_egid := %d; p_aux := %s; p_access := %d; p_ro := %s; p_obs := %d |}",
+		coq = append(coq, fmt.Sprintf("IP %d %d %d %d %d %s %d %s %d",
 			p.mode, p.fuid, p.fgid, p.euid, p.egid, aux, p.access, CBool(p.ro), obs))
 		if i < 12 {
 			txt = append(txt, fmt.Sprintf("mode=%#o own=%d:%d eff=%d:%d aux=%v none=%v mask=%#x ro=%v -> %#x",
@@ -158,12 +158,17 @@ func runC12(points []c12Point, kind string, idx int) Case {
 
 var boundaryIDs = []uint32{0, 1, 1000, 65533, 65534, 65535, 1 << 31, 1<<32 - 1}
 
+// pickID: small ids, boundary ids and full-range ids.  (Coq's cost per point is dominated by the
+// number of bits in the case term, so the bulk is kept small; the wide values stay frequent.)
 func pickID(r *Rand) uint32 {
-	if r.Chance(50) {
-		return boundaryIDs[r.Intn(len(boundaryIDs))]
-	}
-	if r.Chance(50) {
+	x := r.Intn(100)
+	switch {
+	case x < 45:
 		return uint32(r.Intn(8))
+	case x < 80:
+		return boundaryIDs[r.Intn(len(boundaryIDs))]
+	case x < 90:
+		return uint32(r.U64() & 0xffff)
 	}
 	return uint32(r.U64())
 }
@@ -202,9 +207,12 @@ func concretise(r *Rand, g int, m9 uint32, dir, ro bool, a6 uint32) c12Point {
 		p.access |= uint32(r.U64()) &^ 63
 	}
 	p.fuid, p.fgid = pickID(r), pickID(r)
-	naux := r.Intn(17)
-	if r.Chance(20) {
+	naux := r.Intn(4)
+	switch x := r.Intn(100); {
+	case x < 20:
 		naux = PickInt(r, 0, 1, 16)
+	case x < 50:
+		naux = r.Intn(17)
 	}
 	mkaux := func(avoid uint32) []uint32 {
 		a := make([]uint32, naux)
